@@ -601,6 +601,19 @@ for i := range ref.e {
         w('		okL = zzvf.And(okL, m.%s(ref.e[i].k))' % t['contains'])
         w('	}')
         w('	zzvf.Assert(okL, what+"/every-stored-key-found-by-lookup")')
+        if self.k != 'lk':
+            # and the converse: a pool key that is not stored (never inserted, removed or evicted) is
+            # not found either -- an evicted entry left chained in its bucket is invisible to every
+            # enumeration but answers lookups and absorbs later insertions
+            w('	if ref.poolN > 0 && !ref.emptyKey {')
+            w('		okA := true')
+            w('		for i := 0; i < zzMin(ref.poolN, len(zzPool_%s)); i++ {' % N)
+            w('			if ref.find(zzPool_%s[i]) < 0 {' % N)
+            w('				okA = zzvf.And(okA, !m.%s(zzPool_%s[i]))' % (t['contains'], N))
+            w('			}')
+            w('		}')
+            w('		zzvf.Assert(okA, what+"/no-lookup-finds-a-key-that-is-not-stored")')
+            w('	}')
         if not self.isset:
             w('	okV := true')
             w(self.enum_values_seq('m', 'okV'))
